@@ -477,14 +477,34 @@ pub fn run_block_c18(verif_seed: u64, block: u64, n_bases: usize, opts: &BlockOp
                     }
                 }
             }
+            // --- re-entrancy at every callback index: callback k calls back into the interpolator
+            for k in 0..m {
+                let mut spec = g.spec.clone();
+                let slot = spec.threads[t].ops[i].slot;
+                let mut plan = vec![Act::Ok; k];
+                plan.push(crate::gen::gen_nest_for(&mut r, &spec.slots[slot], Mode::C18));
+                spec.threads[t].ops[i].plan = plan;
+                let res = run_spec(&spec, Prop::C18, &RunOpts::default());
+                sum.fault_plans += 1;
+                let variant = format!("nest@t{t}.o{i}.k{k}");
+                if record(&mut sum, &spec, &res, run, &variant, seed, &mut nt, &mut tr) && opts.stop_first {
+                    break 'bases;
+                }
+            }
             // --- random multi-fault plan: several operations of several threads fail ---------
             let mut spec = g.spec.clone();
+            let slot_cfgs = spec.slots.clone();
             for (t, th) in spec.threads.iter_mut().enumerate() {
                 for (i, op) in th.ops.iter_mut().enumerate() {
                     let m = op.call.batch_len();
                     if m >= 1 && r.chance(1, 3) {
                         let k = r.below(m);
                         op.plan = plan_for(t, i, k, r.chance(1, 4));
+                        if r.chance(1, 4) {
+                            // ... or calls back into the interpolator instead of failing
+                            let last = op.plan.len() - 1;
+                            op.plan[last] = crate::gen::gen_nest_for(&mut r, &slot_cfgs[op.slot], Mode::C18);
+                        }
                         // a second failure later in the same batch
                         if k + 1 < m && r.chance(1, 3) {
                             let k2 = r.range(k + 1, m - 1);
